@@ -364,7 +364,7 @@ pub fn run(ctx: &Ctx) {
     ctx.assume("bitwise equality is demanded because the property is about identity/determinism of one deterministic computation on the same stored data");
     let t = ctx.tier;
     let len = t.pick(12, 40);
-    ctx.run_cases("history-twin", t.pick(8000, 40000), t.pick(15.0, 150.0), |r, c, o| twin_case(r, c, o, len));
+    ctx.run_cases("history-twin", t.pick(8000, 120000), t.pick(15.0, 900.0), |r, c, o| twin_case(r, c, o, len));
     let exe = exe_for_profile("checked");
     run_in_children(ctx, &exe, "checked", "poison", t.pick(3200, 24000), 20.0, t.pick(60.0, 300.0));
     if t == Tier::Thorough && ctx.replay.is_none() {
